@@ -1016,6 +1016,18 @@ class Module(ABC):
         # Override `comp_index` to just be a consecutive list.
         all_nodes["global_comp_index"] = np.arange(len(all_nodes))
 
+        # Groups store row labels: rows behind the modified branch are shifted, and a
+        # group that contained (part of) the modified branch contains its new rows.
+        shift = ncomp - number_deleted
+        for group_name, rows in self.base.groups.items():
+            rows = np.asarray(rows).astype(int)
+            is_within = (rows >= start_idx) & (rows < start_idx + number_deleted)
+            new_within = np.arange(start_idx, start_idx + ncomp * int(np.any(is_within)))
+            behind = rows[rows >= start_idx + number_deleted] + shift
+            self.base.groups[group_name] = np.concatenate(
+                [rows[rows < start_idx], new_within, behind]
+            ).astype(int)
+
         # Update compartment structure arguments.
         ncomp_per_branch[branch_indices] = ncomp
         ncomp = int(np.max(ncomp_per_branch))
